@@ -349,7 +349,8 @@ def _ole_progid(env, v, s):
 
 # ---- hyperlinks
 
-@sink("hyperlink.address", variants=["shape", "picture", "run", "run-replace", "run-shared", "run-shared-clear"], max_len=120)
+@sink("hyperlink.address", variants=["shape", "picture", "run", "run-replace", "run-shared", "run-shared-clear", "reuse-after-free"],
+      max_len=120)
 def _hlink(env, v, s):
     from pptx.enum.shapes import MSO_SHAPE
 
@@ -362,6 +363,18 @@ def _hlink(env, v, s):
         sh = slide.shapes.add_picture(env.image("p.png"), 0, 0)
         sh.click_action.hyperlink.address = s
         return prs, [("address", lambda p: p.slides[0].shapes[0].click_action.hyperlink.address, s)]
+    if v == "reuse-after-free":
+        # the address is given to one shape, replaced there (its relationship is released), another relationship is
+        # added (it may take the freed id), and then the same address is given to a second shape
+        a = slide.shapes.add_shape(MSO_SHAPE.RECTANGLE, 0, 0, 100, 100)
+        b = slide.shapes.add_shape(MSO_SHAPE.RECTANGLE, 0, 200, 100, 100)
+        a.click_action.hyperlink.address = s
+        a.click_action.hyperlink.address = "http://other.example/"
+        slide.shapes.add_picture(env.image("p.png"), 0, 400)
+        b.click_action.hyperlink.address = s
+        return prs, [("address", lambda p: p.slides[0].shapes[1].click_action.hyperlink.address, s),
+                     ("other-address", lambda p: p.slides[0].shapes[0].click_action.hyperlink.address,
+                      "http://other.example/")]
     tb = slide.shapes.add_textbox(0, 0, 100, 100)
     if v in ("run-shared", "run-shared-clear"):
         # two runs link to the same address (one shared relationship); one of them is then changed or cleared
